@@ -128,6 +128,27 @@ static void one_op(void) {
       lp_rational_destruct(&q); lp_integer_destruct(&num); lp_integer_destruct(&den);
     }
     sb_emit();
+  } else if (op < 86) {
+    /* both bounds inside one unit interval, one of them a dyadic point that the bisection of (n, n+1) hits exactly */
+    long n = rnd_in(-3, 3); unsigned j = 1 + rnd(4); long k = 1 + 2 * (long)rnd(1u << (j - 1));       /* k odd, k/2^j in (0,1) */
+    lp_value_t lo, hi; lp_rational_t ql, qh;
+    lp_rational_construct_from_int(&qh, n * (1L << j) + k, 1ul << j);
+    lp_rational_construct_from_int(&ql, 3 * (n * (1L << j) + k) - 1, 3ul << j);               /* hi - 1/(3*2^j) */
+    if (chance(50)) { lp_value_construct(&hi, LP_VALUE_RATIONAL, &qh); }
+    else { lp_dyadic_rational_t d; lp_dyadic_rational_construct_from_int(&d, n * (1L << j) + k, j); lp_value_construct(&hi, LP_VALUE_DYADIC_RATIONAL, &d); lp_dyadic_rational_destruct(&d); }
+    lp_value_construct(&lo, LP_VALUE_RATIONAL, &ql);
+    int swap = chance(30), sl = chance(50), sh = chance(60);
+    const lp_value_t* A = swap ? &hi : &lo; const lp_value_t* B = swap ? &lo : &hi;
+    int sA = swap ? sh : sl, sB = swap ? sl : sh;
+    if (chance(30)) { /* mirror: the dyadic point is the lower bound */
+      lp_rational_t t; lp_rational_construct_from_int(&t, 3 * (n * (1L << j) + k) + 1, 3ul << j);
+      lp_value_destruct(&lo); lp_value_construct(&lo, LP_VALUE_RATIONAL, &t); lp_rational_destruct(&t);
+      A = &hi; B = &lo; sA = sh; sB = sl;
+    }
+    sb_begin("val", "between"); sb_sp(); sb_val(A); sb_sp(); sb_long(sA); sb_sp(); sb_val(B); sb_sp(); sb_long(sB); sb_arrow();
+    lp_value_get_value_between(A, sA, B, sB, &r);
+    sb_sp(); sb_val(&r); sb_emit();
+    lp_value_destruct(&lo); lp_value_destruct(&hi); lp_rational_destruct(&ql); lp_rational_destruct(&qh);
   } else if (op < 94) {
     int sa = chance(50), sbb = chance(50);
     int c = lp_value_cmp(a, b);
